@@ -10,6 +10,13 @@ Case kinds
             expression tree or for an explicit per-level value table (a callable that answers its k-th
             call with level k of the table)
 
+  decade  : an ordinary case with the function values / the geometry scaled by powers of two or the origin moved far away
+            (round 5/6; observation and model value transformed back exactly, judged in the base world)
+  own     : ownership history: three rounds of observe -> overwrite every array handed in / out -> rebuild from fresh inputs
+  large   : recipe-sized cases judged by a vectorised oracle; history: typed histories on reused objects
+  (layout / container variants, configuration in force at call time and constructor-option crossing are keys of the
+   ordinary cases: mask_as, ps_as, origin_as, sub_as, values_as, ret_as, grid_as, conf, pre_conf, opt, ds_opts)
+
 The oracle re-states the property with Fractions from the mask geometry alone (pixel squares, uniform
 partition, means, first-agreeing level) and never calls the code under test or the Lean model.
 """
@@ -232,6 +239,15 @@ def sub_centres(g, P, s):
 
 
 def expand_sub(case, n):
+    ad = (case.get("conf") or {}).get("adaptive")
+    if ad and case.get("path") == "none":
+        # over_sampling=None: the sub-size map is what the configuration in force at call time prescribes
+        if "_amap" not in case:
+            mg = []
+            case["_amap"] = adaptive_sub_map(case["mask"], geom_of(case), tuple(F(v) for v in case["centre"]),
+                                             [int(v) for v in ad["ssl"]], [F(v) for v in ad["rfl"]], mg)
+            case["_amargin"] = min(mg) if mg else None
+        return list(case["_amap"])
     s = case["sub"]
     return [s] * n if isinstance(s, int) else list(s)
 
@@ -239,22 +255,35 @@ def expand_sub(case, n):
 def level_table(mj, g, f, steps, margins, errs=None):
     """v[l][k]: level 0 = f at the pixel centre, level l>=1 = mean of f over the sub_steps[l-1]^2
     sub-centres of pixel k.  If `errs` is a list it receives the matching table of rounding bounds."""
-    h, w = mj["h"], mj["w"]
-    px = unmasked_pixels(mj)
-    tab, et = [], []
-    for s in [None] + list(steps):
-        row, erow = [], []
-        for (y, x) in px:
-            P = pixel_centre(h, w, g, y, x)
-            cex = geom_float_exact(g) and (s is None or is_pow2(s))
-            v, e = mean_with_err(f, [P] if s is None else sub_centres(g, P, s), margins, cex)
-            row.append(v)
-            erow.append(e)
-        tab.append(row)
-        et.append(erow)
+    # memo (harness-internal, results are never mutated): the generator, the margin check in run_impl, the
+    # comparison and the oracle all ask for the table of the same world
+    key = (mj["h"], mj["w"], mj["bits"], tuple(g), json.dumps(f), tuple(steps))
+    hit = _LT_MEMO.get(key)
+    if hit is None:
+        h, w = mj["h"], mj["w"]
+        px = unmasked_pixels(mj)
+        tab, et, mg = [], [], []
+        for s in [None] + list(steps):
+            row, erow = [], []
+            for (y, x) in px:
+                P = pixel_centre(h, w, g, y, x)
+                cex = geom_float_exact(g) and (s is None or is_pow2(s))
+                v, e = mean_with_err(f, [P] if s is None else sub_centres(g, P, s), mg, cex)
+                row.append(v)
+                erow.append(e)
+            tab.append(row)
+            et.append(erow)
+        if len(_LT_MEMO) > 6000:
+            _LT_MEMO.clear()
+        hit = _LT_MEMO[key] = (tab, et, mg)
+    tab, et, mg = hit
+    margins.extend(mg)
     if errs is not None:
         errs.extend(et)
     return tab
+
+
+_LT_MEMO = {}
 
 
 def is_pow2(n):
@@ -343,6 +372,165 @@ def iterate_expected(table, fr, rel, exact, errs=None):
 
 
 # ------------------------------------------------------------------------------------------------
+# round 5/6 (R5-C): the same numbers in another container / memory layout / dtype
+# ------------------------------------------------------------------------------------------------
+def _garbage(a):
+    return ~a if a.dtype == bool else (a + 12345).astype(a.dtype)
+
+
+def strided_view(a):
+    """equal values as a non-contiguous view: every second entry (1-D, or row of an (N,2) array) / every second
+    row and third column (2-D masks) of a buffer whose other entries are garbage"""
+    a = np.asarray(a)
+    if a.ndim == 2 and a.dtype == bool:
+        big = np.repeat(np.repeat(_garbage(a), 2, axis=0), 3, axis=1)
+        big[::2, ::3] = a
+        return big[::2, ::3]
+    big = np.empty((2 * a.shape[0],) + a.shape[1:], dtype=a.dtype)
+    big[1::2] = _garbage(a)
+    big[::2] = a
+    return big[::2]
+
+
+def array_variant(a, how):
+    """`a` (ndarray) handed over as `how`; None / unknown -> unchanged"""
+    if not how or how in ("ndarray", "f64"):
+        return a
+    if how == "fortran":
+        return np.asfortranarray(a)
+    if how == "tview":                       # C-contiguous buffer of the transpose, seen through .T
+        return np.ascontiguousarray(a.T).T
+    if how == "strided":
+        return strided_view(a)
+    if how == "reversed":                    # negative strides
+        return np.ascontiguousarray(a[::-1])[::-1]
+    if how == "readonly":
+        o = a.copy()
+        o.setflags(write=False)
+        return o
+    if how == "list":
+        return a.tolist()
+    if how == "tuple":
+        return tuple(a.tolist())
+    if how == "tuple_rows":
+        return [tuple(r) for r in a.tolist()]
+    if how in ("f32", "i64", "i32", "i16", "u8", "int01"):
+        return a.astype({"f32": np.float32, "i64": np.int64, "i32": np.int32, "i16": np.int16, "u8": np.uint8,
+                         "int01": np.int64}[how])
+    return a
+
+
+def ret_variant(out, how, aa):
+    """what the user function hands back (R5-C)"""
+    if not how:
+        return out
+    if how == "irregular":
+        return aa.ArrayIrregular(values=out)
+    return array_variant(np.asarray(out), how)
+
+
+def pow2(k):
+    return F(2) ** int(k)
+
+
+def subst(e, ey, ex):
+    """the expression tree with (y, x) replaced by the trees (ey, ex)"""
+    k = e[0]
+    if k == "y":
+        return ey
+    if k == "x":
+        return ex
+    if k == "c":
+        return e
+    if k == "lookup":
+        return ["lookup", subst(e[1], ey, ex), subst(e[2], ey, ex), e[3], e[4], e[5]]
+    return [k] + [subst(c, ey, ex) for c in e[1:]]
+
+
+# ------------------------------------------------------------------------------------------------
+# round 5/6 (R5-D): the configuration values the anchored code reads through `conf.instance[...]`
+# ------------------------------------------------------------------------------------------------
+CONF_PROFILE = "MockGrid2DLikeObj"
+CONF_KEYS = {
+    "native_only": ("general", "structures", "native_binned_only", None),
+    "ssl": ("grids", "over_sampling", "sub_size_list", CONF_PROFILE),
+    "rfl": ("grids", "over_sampling", "radial_factor_list", CONF_PROFILE),
+}
+
+
+def _conf_slot(name):
+    from autoconf import conf
+
+    a, b, c, d = CONF_KEYS[name]
+    sec = conf.instance[a][b]
+    return (sec, c) if d is None else (sec[c], d)
+
+
+class conf_overrides:
+    """context: the named configuration values are in force; the previous values are put back on exit (also on
+    exceptions)."""
+
+    def __init__(self, cfg):
+        self.cfg = dict(cfg or {})
+        self.old = []
+
+    def __enter__(self):
+        for k, v in self.cfg.items():
+            sec, key = _conf_slot(k)
+            self.old.append((sec, key, sec[key]))
+            sec[key] = v
+        return self
+
+    def __exit__(self, *exc):
+        for sec, key, v in reversed(self.old):
+            sec[key] = v
+        return False
+
+
+def conf_of(case):
+    """case["conf"] = {"adaptive": {"ssl": [...], "rfl": ["p/q", ...]}} -> override dict for `conf_overrides`"""
+    ad = (case.get("conf") or {}).get("adaptive")
+    if not ad:
+        return {}
+    return {"ssl": [int(v) for v in ad["ssl"]], "rfl": [float(F(v)) for v in ad["rfl"]]}
+
+
+def adaptive_sub_map(mj, g, centre, ssl, rfl, margins):
+    """what the configuration entries `sub_size_list` / `radial_factor_list` mean (grids.yaml, docstring of
+    OverSamplingUniform.from_radial_bins): circles of radius min(pixel scale) * factor around the centre of the pixel
+    that contains the profile centre; a pixel whose centre lies inside the j-th circle (and in none before) gets
+    sub_size_list[j], pixels outside every circle the last entry.  Appends the relative distance of every decision
+    (pixel edge for the snapping, circle for the bins) to its tie to `margins`."""
+    h, w = mj["h"], mj["w"]
+    sy, sx, oy, ox = g
+    ty, tx = (oy + F(h, 2) * sy - centre[0]) / sy, (centre[1] - (ox - F(w, 2) * sx)) / sx   # pixel units from the top-left corner
+    iy, ix = math.floor(ty), math.floor(tx)
+    margins.append(min(ty - iy, iy + 1 - ty, tx - ix, ix + 1 - tx))
+    margins.append(F(1) if (0 <= iy < h and 0 <= ix < w) else F(0))      # only centres inside the frame are generated
+    cy, cx = pixel_centre(h, w, g, iy, ix)
+    out = []
+    for (y, x) in unmasked_pixels(mj):
+        py, px = pixel_centre(h, w, g, y, x)
+        r2 = (py - cy) ** 2 + (px - cx) ** 2
+        s = ssl[-1]
+        for j, rf in enumerate(rfl):
+            R2 = (min(sy, sx) * rf) ** 2
+            margins.append(abs(r2 - R2) / R2)
+            if r2 < R2:
+                s = ssl[j]
+                break
+        out.append(int(s))
+    return out
+
+
+def rows_contiguous(mj):
+    """the unmasked pixels occupy consecutive rows (Grid2D.is_uniform, which gates the adaptive scheme, looks at
+    the differences of successive y coordinates)"""
+    rows = sorted({y for y, _ in unmasked_pixels(mj)})
+    return not rows or rows[-1] - rows[0] + 1 == len(rows)
+
+
+# ------------------------------------------------------------------------------------------------
 # the mock profile classes (the class name is looked up in the pinned config when
 # over_sampling is None: MockGrid2DLikeObj has sub_size_list [1, 1])
 # ------------------------------------------------------------------------------------------------
@@ -360,9 +548,10 @@ def profile_classes():
 
     class MockGrid2DLikeObj:
         def __init__(self, f=None, table=None, geom=None, shape=None, ret_int=False,
-                     raise_at=None, raise_cls=ValueError, short=False):
-            self.centre = (0.0, 0.0)
+                     raise_at=None, raise_cls=ValueError, short=False, ret_as=None, centre=(0.0, 0.0)):
+            self.centre = centre
             self.ret_int = ret_int   # hand back an integer-dtype array (values are integral)
+            self.ret_as = ret_as     # round 5/6 (R5-C): container / layout / dtype of the returned values
             self.f = f
             self.table = table
             self.geom = geom
@@ -381,7 +570,21 @@ def profile_classes():
                 raise self.raise_cls("injected fault: the user function rejects this evaluation")
             if self.short:
                 return self._evaluate(g)[:-1]
-            return self._evaluate(g)
+            out = self._evaluate(g)
+            chk = CHECK
+            if chk._cap is not None:          # ownership histories (R5-B): the argument and the result are
+                chk._cap.append(g)            # scribbled over after the call
+                chk._cap.append(out)
+            if chk._cb_edit and isinstance(g, np.ndarray) and g.flags.writeable:
+                # a user function that edits its argument in place, after it has used it
+                try:
+                    if chk._cb_edit == "nan":
+                        g[...] = np.nan
+                    else:
+                        g += 1.5
+                except Exception:
+                    pass
+            return ret_variant(out, self.ret_as, aa)
 
         def _evaluate(self, g):
             if self.table is not None:
@@ -777,7 +980,7 @@ class C09(PropertyCheck):
         "functools.wraps / *args / **kwargs plumbing of the decorator; cached_property on the over sampler",
     ]
     # loop ties (DESIGN §12): regenerated from the source on every run, tie theorems proved for all sizes
-    loop_tie_modules = ["LoopsOverSample"]
+    loop_tie_modules = ["LoopsOverSample", "LoopsOverSample3"]
     modelled_functions = [
         "autoarray/geometry/geometry_util.py:central_pixel_coordinates_2d_from",
         "autoarray/geometry/geometry_util.py:central_scaled_coordinate_2d_from",
@@ -818,6 +1021,8 @@ class C09(PropertyCheck):
         "sub-size maps have one integer entry in 1..8 per unmasked pixel; schedules are non-empty lists of Python ints",
         "the user function is a pure function of the (y,x) points (plus, for the table generator, of the call count) returning finite values",
         "fractional_accuracy > 0 when set",
+        "the user function returns an ndarray-like (ndarray of any layout / float or int dtype, ArrayIrregular); Python lists / tuples are rejected by the library itself",
+        "objects built while general.structures.native_binned_only is set are not reused after it is cleared",
     ]
 
     # -------------------------------------------------------------------------------- generation
@@ -871,6 +1076,10 @@ class C09(PropertyCheck):
             hc = self._history_case(rng, quick)
             if hc:
                 yield hc
+        # 8. round 5/6: decades, ownership histories, container / layout variants, configuration histories, option
+        #    crossing, always-on sizes beyond 2^15 / 2^16 (after everything else, so that the earlier streams of a seed
+        #    are what they were)
+        yield from self._r56_stream(tier, rng)
 
     N_HISTORIES = {"quick": 330, "thorough": 2400}
     N_HISTORIES_FIRST = 400   # thorough tier: this many histories lead the stream (time-cut searches see them)
@@ -1092,7 +1301,42 @@ class C09(PropertyCheck):
         mj = case["mask"]
         m = np.array([c == "1" for c in mj["bits"]], dtype=bool).reshape(mj["h"], mj["w"])
         sy, sx, oy, ox = self._geom_numbers(case)
-        return aa.Mask2D(mask=m, pixel_scales=(sy, sx), origin=(oy, ox))
+        kw = self._geom_kwargs(case, sy, sx, oy, ox)
+        how = case.get("mask_as")
+        if how == "inverted":
+            return self._keep(aa.Mask2D(mask=self._keep(~m), invert=True, **kw))
+        if how in ("from_mask2d", "from_mask2d_same"):
+            # a Mask2D built from a Mask2D (R5-C): the geometry explicitly passed to the outer call counts, also when
+            # it is falsy (origin (0.0, 0.0)) and the inner mask has another one
+            inner = aa.Mask2D(mask=self._keep(m), pixel_scales=(sy, sx), origin=(oy, ox)) if how == "from_mask2d_same" \
+                else aa.Mask2D(mask=self._keep(m), pixel_scales=(3.0 * sy, 0.25 * sx), origin=(oy + 5.0, ox - 7.0))
+            return self._keep(aa.Mask2D(mask=inner, **kw))
+        return self._keep(aa.Mask2D(mask=self._keep(array_variant(m, how)), **kw))
+
+    @staticmethod
+    def _geom_kwargs(case, sy, sx, oy, ox):
+        """pixel scales / origin in the container the case asks for (same numbers)"""
+        ps_as, og_as = case.get("ps_as"), case.get("origin_as")
+        ps = (sy, sx)
+        if ps_as == "list":
+            ps = [sy, sx]
+        elif ps_as == "np64":
+            ps = (np.float64(sy), np.float64(sx))
+        elif ps_as == "nparr":
+            ps = np.array([sy, sx], dtype=float)
+        elif ps_as == "scalar" and sy == sx:
+            ps = sy
+        kw = {"pixel_scales": ps}
+        og = (oy, ox)
+        if og_as == "list":
+            og = [oy, ox]
+        elif og_as == "np64":
+            og = (np.float64(oy), np.float64(ox))
+        elif og_as == "nparr":
+            og = np.array([oy, ox], dtype=float)
+        if not (og_as == "omit" and oy == 0 and ox == 0):
+            kw["origin"] = og
+        return kw
 
     @staticmethod
     def _geom_numbers(case):
@@ -1106,9 +1350,17 @@ class C09(PropertyCheck):
         s = case["sub"]
         if isinstance(s, int):
             return int(s)
-        if case.get("sub_as") == "list":
-            return aa.Array2D(values=[int(v) for v in s], mask=mask)
-        return aa.Array2D(values=np.array([int(v) for v in s]), mask=mask)
+        how = case.get("sub_as")
+        if how == "list":
+            return self._keep(aa.Array2D(values=[int(v) for v in s], mask=mask))
+        arr = np.array([int(v) for v in s], dtype=int)
+        if how == "native":                       # natively stored map (zeros under the mask)
+            nat = np.zeros(mask.shape_native, dtype=int)
+            nat[~np.array(mask)] = arr
+            return self._keep(aa.Array2D(values=self._keep(nat), mask=mask))
+        if how == "from_array2d":                 # a structure built from a structure
+            return self._keep(aa.Array2D(values=aa.Array2D(values=self._keep(arr), mask=mask), mask=mask))
+        return self._keep(aa.Array2D(values=self._keep(array_variant(arr, how)), mask=mask))
 
     @staticmethod
     def _values_arg(case):
@@ -1125,7 +1377,9 @@ class C09(PropertyCheck):
             return np.array([float(v) for v in fr], dtype=np.float32)
         if how == "list_float":
             return [float(v) for v in fr]
-        return np.array([float(v) for v in fr])
+        if how in ("i32", "i16"):
+            return np.array([int(v) for v in fr], dtype=np.int32 if how == "i32" else np.int16)
+        return array_variant(np.array([float(v) for v in fr]), how)
 
     def _uniform_grid(self, aa, case, mask, os_):
         """alternative constructors of the same Grid2D (property anchors: dataset/grids.py, Grid2D)"""
@@ -1133,23 +1387,94 @@ class C09(PropertyCheck):
         if path == "dataset_grids":
             from autoarray.dataset.grids import GridsDataset
 
-            return GridsDataset(mask=mask, over_sampling=aa.OverSamplingDataset(uniform=os_)).uniform
+            o = case.get("ds_opts") or {}
+            kw, gkw = {"uniform": os_}, {}
+            for name in ("non_uniform", "pixelization"):        # R5-F: the sibling options must not matter
+                v = o.get(name, "omit")
+                if v == "iterate":
+                    kw[name] = aa.OverSamplingIterate(fractional_accuracy=0.5, sub_steps=[2, 3])
+                elif v != "omit":
+                    kw[name] = None if v is None else aa.OverSamplingUniform(sub_size=int(v))
+            if o.get("psf"):
+                gkw["psf"] = aa.Kernel2D.no_blur(pixel_scales=mask.pixel_scales)
+            gd = GridsDataset(mask=mask, over_sampling=aa.OverSamplingDataset(**kw), **gkw)
+            for nm in o.get("touch", []):                       # sibling grids read first
+                try:
+                    getattr(gd, nm)
+                except Exception:
+                    pass
+            return gd.uniform
         if path == "grid_uniform":
             sy, sx, oy, ox = self._geom_numbers(case)
             return aa.Grid2D.uniform(shape_native=(case["mask"]["h"], case["mask"]["w"]),
                                      pixel_scales=(sy, sx), origin=(oy, ox), over_sampling=os_)
         return aa.Grid2D.from_mask(mask=mask, over_sampling=os_)
 
+    # ---- round 5/6 plumbing: capture of every array handed in / handed back (ownership histories), user
+    #      functions that edit their argument, configuration in force at call time -------------------------
+    _cap = None        # list while an ownership history records the arrays of one round
+    _cb_edit = None    # "nan" / "shift": the mock user function edits its argument in place after using it
+
+    def _keep(self, x):
+        if self._cap is not None:
+            self._cap.append(x)
+        return x
+
+    def _sv(self, res):
+        self._keep(res)
+        return _slim(res)
+
+    def _pre(self, case, thunk, obj=None):
+        """R5-D: before the observed call, the same call is made on the same objects while other configuration
+        values are in force (its result is not judged; it may fail); then the configuration is put back"""
+        pre = case.get("pre_conf")
+        if not pre:
+            return
+        try:
+            with conf_overrides(pre):
+                thunk()
+        except Exception:
+            pass
+        if obj is not None:
+            obj.calls = 0
+
+    def _obj_kwargs(self, case):
+        kw = {"ret_as": case.get("ret_as")}
+        if case.get("centre"):
+            kw["centre"] = tuple(float(F(v)) for v in case["centre"])
+        return kw
+
     def run_impl(self, case):
-        if case["kind"] == "large":
+        kind = case["kind"]
+        if kind == "large":
             return self._run_large(case)
-        if case["kind"] == "history":
+        if kind == "history":
             return self._run_history(case)
-        if case["kind"] != "uniform":
+        if kind == "decade":
+            return self._run_decade(case)
+        if kind == "own":
+            return self._run_own(case)
+        if kind != "uniform":
             # a discrete decision of the user function itself (step / lattice cell / denominator) within
             # 1e-9 of its tie: nothing about this case can be compared
             self._check_margin(self._analysis(case))
         aa = load_autoarray()
+        pre = case.get("pre_conf")
+        if pre and "native_only" in pre:
+            # `native_binned_only` changes what the structures store, so objects built while it is set are not
+            # expected to serve later calls: the whole world is built and used once on throw-away objects while the
+            # value is in force (first use in a process, when this is the corpus case), then the observed world is
+            # built from fresh objects under the pinned configuration
+            case = {k: v for k, v in case.items() if k != "pre_conf"}
+            try:
+                with conf_overrides(pre):
+                    self._run_ordinary(aa, dict(case))
+            except Exception:
+                pass
+        with conf_overrides(conf_of(case)):
+            return self._run_ordinary(aa, case)
+
+    def _run_ordinary(self, aa, case):
         pc = profile_classes()
         mask = self._mask(aa, case)
         kind = case["kind"]
@@ -1162,7 +1487,8 @@ class C09(PropertyCheck):
                 ov = aa.OverSamplingUniform(sub_size=ss).over_sampler_from(mask=mask)
             else:
                 ov = self._uniform_grid(aa, case, mask, aa.OverSamplingUniform(sub_size=ss)).over_sampler
-            vals = self._values_arg(case)
+            self._keep(ov)
+            vals = self._keep(self._values_arg(case))
             if route == "util":
                 # the jitted utilities called directly, as autoarray.util.over_sample exposes them
                 u = aa.util.over_sample
@@ -1176,91 +1502,75 @@ class C09(PropertyCheck):
                 sfs_v = u.slim_index_for_sub_slim_index_via_mask_2d_from(mask_2d=m2, sub_size=sub_arr)
                 nat_v = u.native_sub_index_for_slim_sub_index_2d_from(mask_2d=m2, sub_size=sub_arr)
             else:
+                self._pre(case, lambda: (ov.binned_array_2d_from(array=vals), ov.over_sampled_grid))
                 b1 = ov.binned_array_2d_from(array=vals)
                 b2 = ov.binned_array_2d_from(array=aa.ArrayIrregular(values=np.asarray(vals)))
                 grid_v, sfs_v, nat_v = ov.over_sampled_grid, ov.slim_for_sub_slim, ov.sub_mask_native_for_sub_mask_slim
+            areas = self._keep(ov.sub_pixel_areas)
+            ug = self._keep(mask.derive_grid.unmasked)
+            for x in (b1, b2, grid_v, sfs_v, nat_v):
+                self._keep(x)
             return {
                 "grid": [qlist(p) for p in np.asarray(grid_v, dtype=float).reshape(-1, 2)],
                 "slim_for_sub_slim": [int(v) for v in sfs_v],
                 "sub_native": [[int(a), int(b)] for a, b in np.asarray(nat_v).reshape(-1, 2)],
-                "areas": qlist(np.asarray(ov.sub_pixel_areas, dtype=float)),
-                "unmasked_grid": [qlist(p) for p in
-                                  np.asarray(mask.derive_grid.unmasked, dtype=float).reshape(-1, 2)],
+                "areas": qlist(np.asarray(areas, dtype=float)),
+                "unmasked_grid": [qlist(p) for p in np.asarray(ug, dtype=float).reshape(-1, 2)],
                 "binned": _slim(b1),
                 "binned_irregular": _slim(b2),
                 "sub_total": int(ov.sub_total),
             }
         if kind == "func":
-            obj = pc["cls"](f=case["f"], ret_int=bool(case.get("ret_int")))
+            obj = pc["cls"](f=case["f"], ret_int=bool(case.get("ret_int")), **self._obj_kwargs(case))
             path = case["path"]
-            ss = self._sub_size(aa, case, mask)
-            if path == "sampler":
-                ov = aa.OverSamplerUniform(mask=mask, sub_size=ss)
-                return {"values": _slim(ov.array_via_func_from(func=pc["plain"], obj=obj))}
-            if path == "oversampled_grid":
-                ov = aa.OverSamplerUniform(mask=mask, sub_size=ss)
-                gos = aa.Grid2DOverSampled(grid=ov.over_sampled_grid, over_sampler=ov,
-                                           pixels_in_mask=mask.pixels_in_mask)
-                return {"values": _slim(obj.image_2d_from(grid=gos))}
             if path == "none":
-                grid = aa.Grid2D.from_mask(mask=mask)
-                return {"values": _slim(obj.image_2d_from(grid=grid))}
-            os_ = aa.OverSamplingUniform(sub_size=ss)
-            if path == "custom_grid":
-                ga = case.get("grid_as", "f64")
-                if ga == "list_int":
-                    gv = [[int(F(a)), int(F(b))] for a, b in case["grid"]]
-                elif ga == "i64":
-                    gv = np.array([[int(F(a)), int(F(b))] for a, b in case["grid"]], dtype=np.int64).reshape(-1, 2)
-                elif ga == "list_float":
-                    gv = [[float(F(a)), float(F(b))] for a, b in case["grid"]]
+                grid = self._keep(aa.Grid2D.from_mask(mask=mask))
+                call = lambda: obj.image_2d_from(grid=grid)
+            else:
+                ss = self._sub_size(aa, case, mask)
+                if path == "sampler":
+                    ov = self._keep(aa.OverSamplerUniform(mask=mask, sub_size=ss))
+                    call = lambda: ov.array_via_func_from(func=pc["plain"], obj=obj)
+                elif path == "oversampled_grid":
+                    ov = self._keep(aa.OverSamplerUniform(mask=mask, sub_size=ss))
+                    gos = aa.Grid2DOverSampled(grid=ov.over_sampled_grid, over_sampler=ov,
+                                               pixels_in_mask=mask.pixels_in_mask)
+                    call = lambda: obj.image_2d_from(grid=gos)
                 else:
-                    gv = np.array([[float(F(a)), float(F(b))] for a, b in case["grid"]]).reshape(-1, 2)
-                if len(gv) == 0:
-                    gv = np.zeros((0, 2))   # an empty Python list carries no (y,x) dimension
-                grid = aa.Grid2D(values=gv, mask=mask, over_sampling=os_)
-                return {"values": _slim(obj.image_2d_from(grid=grid))}
-            grid = self._uniform_grid(aa, case, mask, os_)
-            if path == "decorator_raw":
-                return {"values": _slim(obj.raw_from(grid=grid))}
-            return {"values": _slim(obj.image_2d_from(grid=grid))}
+                    os_ = aa.OverSamplingUniform(sub_size=ss)
+                    if path == "custom_grid":
+                        gv = self._keep(self._custom_grid_values(case))
+                        grid = aa.Grid2D(values=gv, mask=mask, over_sampling=os_)
+                    else:
+                        grid = self._uniform_grid(aa, case, mask, os_)
+                    if case.get("grid_store") == "native":
+                        grid = grid.native                  # the natively stored twin of the same grid (R5-C)
+                    self._keep(grid)
+                    meth = obj.raw_from if path == "decorator_raw" else obj.image_2d_from
+                    call = lambda: meth(grid=grid)
+            self._pre(case, call, obj)
+            return {"values": self._sv(call())}
         if kind == "iterate":
-            def num(v):
-                v = F(v)
-                return int(v) if (case.get("num_as") == "int" and v.denominator == 1) else float(v)
-
-            fr = None if case["fr"] is None else num(case["fr"])
-            rel = None if case["rel"] is None else num(case["rel"])
-            steps = [int(s) for s in case["steps"]]
-            if case.get("steps_as") == "tuple":
-                steps = tuple(steps)
-            kw = {"fractional_accuracy": fr, "relative_accuracy": rel, "sub_steps": steps}
-            if case.get("kw_style") == "omit_defaults":
-                # an argument equal to its documented default is left out: same behaviour required
-                if case["fr"] is not None and F(case["fr"]) == F(0.9999):
-                    del kw["fractional_accuracy"]
-                if rel is None:
-                    del kw["relative_accuracy"]
-                if list(steps) == [2, 4, 8, 16] and case["path"] != "sampler":
-                    del kw["sub_steps"]   # only OverSamplingIterate defaults the schedule
+            kw = self._iter_kw(case)
             if "table" in case:
-                tab = [np.array([float(F(v)) for v in row]) for row in case["table"]]
+                tab = [self._keep(np.array([float(F(v)) for v in row])) for row in case["table"]]
                 sy, sx, oy, ox = (float(F(v)) for v in case["geom"])
                 obj = pc["cls"](table=tab, geom=(sy, sx, oy, ox), shape=(case["mask"]["h"], case["mask"]["w"]),
-                                ret_int=bool(case.get("ret_int")))
+                                ret_int=bool(case.get("ret_int")), **self._obj_kwargs(case))
             else:
-                obj = pc["cls"](f=case["f"])
+                obj = pc["cls"](f=case["f"], **self._obj_kwargs(case))
             if case["path"] == "sampler":
                 it = aa.OverSamplerIterate(mask=mask, **kw)
-                res = it.array_via_func_from(func=pc["plain"], obj=obj)
+                call = lambda: it.array_via_func_from(func=pc["plain"], obj=obj)
             elif case["path"] == "via_over_sampling":
                 it = aa.OverSamplingIterate(**kw).over_sampler_from(mask=mask)
-                res = it.array_via_func_from(func=pc["plain"], obj=obj)
+                call = lambda: it.array_via_func_from(func=pc["plain"], obj=obj)
             else:
                 os_ = aa.OverSamplingIterate(**kw)
-                grid = aa.Grid2D.from_mask(mask=mask, over_sampling=os_)
-                res = obj.image_2d_from(grid=grid)
-            return {"values": _slim(res)}
+                grid = self._keep(aa.Grid2D.from_mask(mask=mask, over_sampling=os_))
+                call = lambda: obj.image_2d_from(grid=grid)
+            self._pre(case, call, obj)
+            return {"values": self._sv(call())}
         raise ValueError(kind)
 
     # -------------------------------------------------------------------------------- model
@@ -1270,6 +1580,11 @@ class C09(PropertyCheck):
             return []      # judged by the vectorised oracle alone
         if kind == "history":
             return self._history_requests(case, impl_obs)
+        if kind == "decade":
+            return self.model_requests(dict(self._decade_scaled(case)), None)    # the model sees the transformed world
+        if kind == "own":
+            rounds = impl_obs.get("rounds") if isinstance(impl_obs, dict) else None
+            return self.model_requests(self._inner(case), rounds[0] if rounds else None)
         mj = case["mask"]
         n = mj["bits"].count("0")
         if kind == "uniform":
@@ -1282,6 +1597,8 @@ class C09(PropertyCheck):
                 return [{"op": "c09.via_func", "mask": mj, "sub": expand_sub(case, n),
                          "geom": case["geom"], "f": case["f"]}]
             s = case["sub"]
+            if path == "none" and (case.get("conf") or {}).get("adaptive"):
+                s = expand_sub(case, n)      # the map the configuration in force prescribes (an input of the model)
             os_ = {"kind": "int", "sub": s} if isinstance(s, int) else {"kind": "arr", "sub": s}
             if path == "custom_grid":
                 gv = case["grid"]
@@ -1309,6 +1626,10 @@ class C09(PropertyCheck):
     def model_obs(self, case, responses):
         if case["kind"] == "history":
             return self._history_model_obs(case, responses)
+        if case["kind"] == "decade":
+            return self._decade_unscale(case, self.model_obs(dict(self._decade_scaled(case)), responses))
+        if case["kind"] == "own":
+            return self.model_obs(self._inner(case), responses)
         for r in responses:
             if "ok" not in r:
                 return {"err": r.get("err")}
@@ -1344,6 +1665,10 @@ class C09(PropertyCheck):
         elif kind == "func":
             margins = []
             sub = expand_sub(case, n)
+            if "_amap" in case:
+                # decisions of the adaptive scheme (pixel that contains the profile centre, radial bins) closer than
+                # 1e-8 (relative) to their tie, or a mask whose rows are not consecutive (not "uniform"): not compared
+                margins.append(F(case["_amargin"]) / 10 if rows_contiguous(mj) else F(0))
             f = case["f"]
             exp, err = [], []
             if all(s == 1 for s in sub) and case["path"] == "custom_grid":
@@ -1390,6 +1715,18 @@ class C09(PropertyCheck):
     def compare(self, case, impl_obs, model_obs, cmp):
         if case["kind"] == "history":
             return self._history_compare(case, impl_obs, model_obs, cmp)
+        if case["kind"] == "decade":
+            dd = self.compare(self._inner(case), impl_obs, model_obs, cmp)
+            return (self._decade_words(case) + str(dd)) if dd else dd
+        if case["kind"] == "own":
+            rounds = impl_obs.get("rounds") if isinstance(impl_obs, dict) else None
+            if not isinstance(rounds, list):
+                return f"ownership history did not run: {str(impl_obs)[:200]}"
+            for r, o in enumerate(rounds):
+                dd = self.compare(self._inner(case), o, model_obs, cmp)
+                if dd:
+                    return f"ownership history, round {r}: {dd}"
+            return None
         if case["kind"] == "iterate":
             a = self._analysis(case)
             self._check_margin(a)
@@ -1422,6 +1759,22 @@ class C09(PropertyCheck):
             return self._oracle_large(case, obs)
         if case["kind"] == "history":
             return self._history_oracle(case, obs)
+        if case["kind"] == "decade":
+            holds, detail = self.oracle(self._inner(case), obs)
+            return holds, (detail if holds else self._decade_words(case) + detail)
+        if case["kind"] == "own":
+            rounds = obs.get("rounds") if isinstance(obs, dict) else None
+            if not isinstance(rounds, list) or len(rounds) != int(case.get("rounds", 3)):
+                return False, f"ownership history did not run: {str(obs)[:200]}"
+            for r, o in enumerate(rounds):
+                holds, detail = self.oracle(self._inner(case), o)
+                if not holds:
+                    return False, (f"ownership history, round {r} of {len(rounds)}: a world rebuilt from fresh, equal inputs "
+                                   f"does not give what a fresh world gives after every array handed to or handed back by "
+                                   f"the API in the earlier rounds was overwritten in place (mode {case.get('scribble')}"
+                                   + (f", the user function edits its argument in place: {case['cb_edit']}"
+                                      if case.get("cb_edit") else "") + f"): {detail}")
+            return True, ""
         if not isinstance(obs, dict) or "err" in obs:
             return False, f"implementation raised {obs}"
         a = self._analysis(case)
@@ -2322,17 +2675,34 @@ class C09(PropertyCheck):
                 del kw["relative_accuracy"]
             if list(steps) == [2, 4, 8, 16] and c["path"] != "sampler":
                 del kw["sub_steps"]
+        # round 5/6 (R5-F): per option "omit" (the value of the case is the documented default) or "sigdefault"
+        # (the default read from the constructor's signature is passed explicitly)
+        opt = c.get("opt") or {}
+        if opt:
+            import inspect
+
+            aa = load_autoarray()
+            cls = aa.OverSamplerIterate if c["path"] == "sampler" else aa.OverSamplingIterate
+            params = inspect.signature(cls.__init__).parameters
+            for name, key in (("fr", "fractional_accuracy"), ("rel", "relative_accuracy"), ("steps", "sub_steps")):
+                how = opt.get(name)
+                if how == "omit" and key in params and params[key].default is not inspect.Parameter.empty:
+                    kw.pop(key, None)
+                elif how == "sigdefault" and key in params and params[key].default is not inspect.Parameter.empty:
+                    kw[key] = params[key].default
         return kw
 
     @staticmethod
     def _obj_args(c):
+        extra = {"ret_as": c.get("ret_as"),
+                 "centre": tuple(float(F(v)) for v in c["centre"]) if c.get("centre") else (0.0, 0.0)}
         if "table" in c:
             sy, sx, oy, ox = (float(F(v)) for v in c["geom"])
             return {"f": None, "table": [np.array([float(F(v)) for v in row]) for row in c["table"]],
                     "geom": (sy, sx, oy, ox), "shape": (c["mask"]["h"], c["mask"]["w"]),
-                    "ret_int": bool(c.get("ret_int"))}
+                    "ret_int": bool(c.get("ret_int")), **extra}
         return {"f": c["f"], "table": None, "geom": None, "shape": None,
-                "ret_int": bool(c.get("ret_int")) if c["kind"] == "func" else False}
+                "ret_int": bool(c.get("ret_int")) if c["kind"] == "func" else False, **extra}
 
     @staticmethod
     def _custom_grid_values(c):
@@ -2345,8 +2715,15 @@ class C09(PropertyCheck):
             gv = [[float(F(a)), float(F(b))] for a, b in c["grid"]]
         else:
             gv = np.array([[float(F(a)), float(F(b))] for a, b in c["grid"]]).reshape(-1, 2)
+            if ga == "native" and len(gv):        # natively stored (H, W, 2) values, zeros under the mask
+                mj = c["mask"]
+                nat = np.zeros((mj["h"], mj["w"], 2))
+                nat[~common.mask_from_json(mj)] = gv
+                return nat
+            if len(gv):
+                gv = array_variant(gv, ga)
         if len(gv) == 0:
-            gv = np.zeros((0, 2))
+            gv = np.zeros((0, 2))   # an empty Python list carries no (y,x) dimension
         return gv
 
     @staticmethod
@@ -2356,6 +2733,8 @@ class C09(PropertyCheck):
     def _oskey(self, c):
         if c["kind"] == "iterate":
             return ("it", c["fr"], c["rel"], tuple(c["steps"]), c.get("kw_style"), c.get("steps_as"), c.get("num_as"))
+        if c.get("path") == "none":
+            return ("none",)
         s = c["sub"]
         return ("un", s) if isinstance(s, int) else ("un", tuple(s), c.get("sub_as"), self._mkey(c))
 
@@ -2450,6 +2829,10 @@ class C09(PropertyCheck):
                 pass
 
     def _h_observe(self, aa, pc, c, o, obj, d):
+        with conf_overrides(conf_of(c)):      # the configuration in force at THIS call (R5-D)
+            return self._h_observe_(aa, pc, c, o, obj, d)
+
+    def _h_observe_(self, aa, pc, c, o, obj, d):
         kind, path = c["kind"], self._path(c)
         if kind == "uniform":
             if path == "util":
@@ -2708,6 +3091,11 @@ class C09(PropertyCheck):
                     and v is not None and v != ""]
             if case["cases"][i].get("twin"):
                 bits.append(f"near-duplicate ({case['cases'][i]['twin']})")
+            if case.get("script") == "conf":
+                ad = (case["cases"][i].get("conf") or {}).get("adaptive")
+                bits.append("configuration in force at this call: " + (
+                    f"sub_size_list {ad['ssl']}, radial_factor_list {[float(F(v)) for v in ad['rfl']]}" if ad
+                    else "pinned (sub_size_list [1, 1])"))
             if bits:
                 parts.append(f"step {i}: " + ", ".join(bits))
         return "; ".join(parts)
@@ -2753,12 +3141,716 @@ class C09(PropertyCheck):
             # (a leading step may have filled a process-wide memo, and a replay starts from a fresh process)
             yield {**base, "cases": base["cases"][:-1], "opts": {**opts, "steps": steps[:n - 1]}}
 
+    # ================================================================================ ROUND 5/6 streams
+    # decade : {"kind": "decade", "base": ordinary case, "kf": k, "kg": k, "shift": [dy, dx] | None}
+    #          the world of `base` with the user function / table / sub-values / absolute tolerance scaled by 2^kf, the
+    #          geometry (pixel scales, origin, custom grid values; the function is composed with the inverse map) by
+    #          2^kg and the origin moved by `shift`.  Powers of two commute with every IEEE operation the code performs
+    #          (no over/underflow in the generated range) and the shift is only used where every coordinate is exactly
+    #          representable, so a correct implementation returns EXACTLY the transformed result of the base world:
+    #          the observation and the model value (computed for the transformed world) are transformed back exactly
+    #          and judged by the comparison / oracle of the base world, i.e. relative to the scaled magnitude.
+    # own    : {"kind": "own", "base": case, "rounds": 3, "scribble": mode, "cb_edit": mode | None}
+    #          ownership history (R5-B): observe -> overwrite in place every array handed to or handed back by the API
+    #          in that round (and, with cb_edit, let the user function edit its argument) -> rebuild the same world from
+    #          fresh equal inputs -> observe; every round is judged like a fresh world.
+    @staticmethod
+    def _pub(c):
+        return {k: v for k, v in c.items() if not k.startswith("_") and k != "corpus_file"}
+
+    def _inner(self, case):
+        """private working copy of a wrapper's base case (analysis caches live there, never in the JSON)"""
+        if "_inner" not in case:
+            case["_inner"] = self._pub(case["base"])
+        return case["_inner"]
+
+    # ---- decade --------------------------------------------------------------------------------------------------
+    def _decade_scaled(self, case):
+        if "_scaled" in case:
+            return case["_scaled"]
+        b = self._pub(case["base"])
+        kf, kg = int(case.get("kf") or 0), int(case.get("kg") or 0)
+        sh = case.get("shift")
+        uf, ug = pow2(kf), pow2(kg)
+        D = (F(sh[0]), F(sh[1])) if sh else (F(0), F(0))
+        sc = dict(b)
+        if kg or sh:
+            g = [F(v) for v in b["geom"]]
+            sc["geom"] = [q(g[0] * ug), q(g[1] * ug), q(g[2] * ug + D[0]), q(g[3] * ug + D[1])]
+            sc["geom_as"] = "float"
+            if "grid" in b:
+                sc["grid"] = [[q(F(a) * ug + D[0]), q(F(c) * ug + D[1])] for a, c in b["grid"]]
+                if b.get("grid_as") in ("list_int", "i64"):
+                    sc["grid_as"] = "f64"
+            if "f" in b:
+                def coord(e, d):
+                    if d != 0:
+                        e = ["sub", e, C(d)]
+                    if kg:
+                        e = ["mul", C(1 / ug), e]
+                    return e
+
+                sc["f"] = subst(b["f"], coord(["y"], D[0]), coord(["x"], D[1]))
+        if kf:
+            if "f" in sc:
+                sc["f"] = ["mul", C(uf), sc["f"]]
+            if "table" in b:
+                sc["table"] = [[q(F(v) * uf) for v in row] for row in b["table"]]
+            if b.get("rel") is not None:
+                sc["rel"], sc["num_as"] = q(F(b["rel"]) * uf), "float"
+            if "values" in b:
+                sc["values"] = [q(F(v) * uf) for v in b["values"]]
+                if b.get("values_as") in ("i64", "list_int", "tuple_int", "i32", "i16") \
+                        or (b.get("values_as") == "f32" and abs(kf) > 90):
+                    sc["values_as"] = "f64"
+            sc.pop("ret_int", None)
+            if b.get("ret_as") == "i32" or (b.get("ret_as") == "f32" and abs(kf) > 90):
+                sc.pop("ret_as", None)
+        case["_scaled"] = sc
+        return sc
+
+    def _decade_unscale(self, case, obs):
+        """exact inverse transformation of an observation of the transformed world"""
+        if not isinstance(obs, dict) or "err" in obs:
+            return obs
+        uf, ug = pow2(int(case.get("kf") or 0)), pow2(int(case.get("kg") or 0))
+        sh = case.get("shift")
+        D = (F(sh[0]), F(sh[1])) if sh else (F(0), F(0))
+
+        def un(v, div, off=0):
+            try:
+                return q((F(v) - off) / div)
+            except (ValueError, ZeroDivisionError, TypeError):
+                return v            # nan / inf / not a number: left as it is (and reported as it is)
+
+        out = dict(obs)
+        for key in ("values", "binned", "binned_irregular"):
+            if isinstance(obs.get(key), list):
+                out[key] = [un(v, uf) for v in obs[key]]
+        for key in ("grid", "unmasked_grid"):
+            if isinstance(obs.get(key), list):
+                out[key] = [[un(p[0], ug, D[0]), un(p[1], ug, D[1])] for p in obs[key]]
+        if isinstance(obs.get("areas"), list):
+            out["areas"] = [un(v, ug * ug) for v in obs["areas"]]
+        return out
+
+    def _run_decade(self, case):
+        inner = self._inner(case)
+        if inner["kind"] != "uniform":
+            self._check_margin(self._analysis(inner))
+        sc = dict(self._decade_scaled(case))
+        aa = load_autoarray()
+        with conf_overrides(conf_of(sc)):
+            obs = self._run_ordinary(aa, sc)
+        return self._decade_unscale(case, obs)
+
+    def _decade_words(self, case):
+        bits = []
+        if case.get("kf"):
+            bits.append(f"function values / sub-values / absolute tolerance scaled by 2^{case['kf']}")
+        if case.get("kg"):
+            bits.append(f"pixel scales, origin and grid scaled by 2^{case['kg']} (function composed with the inverse map)")
+        if case.get("shift"):
+            bits.append(f"origin moved by ({float(F(case['shift'][0]))!r}, {float(F(case['shift'][1]))!r})")
+        if case.get("near"):
+            bits.append(f"ingredient: {self.NEAR_WORDS.get(case['near'], case['near'])}")
+        return "[" + ("; ".join(bits) or "unit world") + "; values below are transformed back to the base world] "
+
+    NEAR_WORDS = {"zero0": "function nearly (not exactly) zero at every pixel centre",
+                  "equal": "successive levels nearly equal (relative 2^-20 ... 2^-26)",
+                  "univals": "nearly uniform sub-values", "square": "nearly square pixels (relative 2^-20 ... 2^-24)",
+                  "const": "nearly constant function"}
+
+    @staticmethod
+    def _shift_ok(b):
+        """every coordinate the implementation computes is exactly representable, also far from the origin"""
+        if not geom_float_exact(geom_of(b)):
+            return False
+        n = b["mask"]["bits"].count("0")
+        subs = list(b["steps"]) if b["kind"] == "iterate" else expand_sub(b, n)
+        return all(is_pow2(int(s)) for s in subs) and "conf" not in b
+
+    def _rand_exp(self, rng, lim):
+        """exponent of a decade: mostly where hidden absolute tolerances (1e-8 ... 1e-12, 1e8 ...) sit, a quarter out
+        to the limit (R5-E)"""
+        r = rng.random()
+        if r < 0.40:
+            k = -rng.randint(28, 45)
+        elif r < 0.60:
+            k = rng.randint(28, 45)
+        elif r < 0.75:
+            k = rng.choice([-1, 1]) * rng.randint(1, 27)
+        else:
+            k = rng.choice([-1, 1]) * rng.randint(100, lim)
+        return k
+
+    def _decade_wrap(self, rng, b, mode=None, near=None):
+        kind = b["kind"]
+        modes = ["amp", "amp", "amp", "geo", "both"]
+        if self._shift_ok(b):
+            modes += ["far", "far_amp"]
+        if near:
+            modes += ["unit", "unit"]
+        mode = mode or rng.choice(modes)
+        kf = kg = 0
+        shift = None
+        if mode in ("amp", "both", "far_amp"):
+            kf = self._rand_exp(rng, 500)
+        if mode in ("geo", "both"):
+            kg = self._rand_exp(rng, 200)
+        if mode in ("far", "far_amp"):
+            g = geom_of(b)
+            j = rng.randint(10, 30)
+            shift = [q(g[0] * rng.choice([-7, -5, -3, -1, 1, 3, 5, 7]) * pow2(j)),
+                     q(g[1] * rng.choice([-7, -5, -3, -1, 1, 3, 5, 7]) * pow2(rng.randint(10, 30)))]
+        label = near or (("table" if "table" in b else kind))
+        return {"tag": f"dec_{mode}_{label}", "kind": "decade", "base": self._pub(b), "kf": kf, "kg": kg,
+                "shift": shift, "near": near}
+
+    # ---- nearly-zero / nearly-equal / nearly-uniform ingredients (relative offsets 2^-20 ... 2^-28: far outside the
+    #      property's 1e-9, inside the defaults of np.allclose / np.isclose once magnitudes are small) ------------------
+    def _near_zero0_case(self, rng):
+        """a function that is tiny but NOT zero at every pixel centre and of ordinary size on every sub-grid
+        (a (y - Y0)^2 + eps on a one-row mask, or an explicit table): the rule gives the value of the last level"""
+        eps = pow2(-rng.randint(20, 28))
+        if rng.random() < 0.6:
+            c = self._zero_centre_case(rng)
+            c["geom"] = rand_geom(rng, exact=True)
+            g = geom_of(c)
+            mj = c["mask"]
+            P = pixel_centre(mj["h"], mj["w"], g, *unmasked_pixels(mj)[0])
+            dy, dx = affine(1, 0, -P[0]), affine(0, 1, -P[1])
+            if len(unmasked_pixels(mj)) == 1:
+                f = add(mul(C(F(rng.randint(1, 4))), dy, dy), mul(C(F(rng.randint(0, 3))), dx, dx), C(eps))
+            else:
+                f = add(mul(C(F(rng.randint(1, 4))), dy, dy), C(eps))
+            c.update(f=f, tag="iterate_near_zero0", steps=rng.choice([[2], [2, 4], [4, 2], [2, 4, 8]]),
+                     rel=rng.choice([None, None, q(F(1, 1 << 10))]),
+                     path=rng.choice(["sampler", "decorator", "via_over_sampling"]), **self._call_style(rng, c["geom"]))
+            return c
+        m, _k = rand_mask(rng, 4, 4, max_unmasked=8)
+        mj = mask_json(m)
+        h, w = mj["h"], mj["w"]
+        steps = rng.choice([[2, 4], [2], [2, 4, 8], [4, 2]])
+        table = [[eps * rng.randint(1, 7) for _ in range(h * w)]]
+        for _ in steps:
+            table.append([F(rng.randint(8, 64), 8) for _ in range(h * w)])
+        geom = rand_geom(rng, exact=True)
+        return {"tag": "table_near_zero0", "kind": "iterate", "mask": mj, "geom": geom,
+                "table": [qlist(r) for r in table], "fr": q(F(float(rng.choice([F(9, 10), F(1, 2), F(9999, 10000)])))),
+                "rel": rng.choice([None, None, q(F(100))]), "steps": steps,
+                "path": rng.choice(["sampler", "decorator", "via_over_sampling"]), "exact": True,
+                **self._call_style(rng, geom)}
+
+    def _near_equal_case(self, rng):
+        """explicit level tables whose successive levels differ by 2^-j (relative, j = 20 ... 26); thresholds between
+        two ratios / differences that actually occur, exact ties, fractional accuracy 1"""
+        m, _k = rand_mask(rng, 4, 4, max_unmasked=9)
+        mj = mask_json(m)
+        h, w = mj["h"], mj["w"]
+        steps = rng.choice([[2, 4], [2, 4, 8], [2, 2, 2], [1, 2, 4], [4, 2], [2, 4, 2, 4]])
+        j = rng.randint(20, 26)
+        table = [[None] * (h * w) for _ in range(len(steps) + 1)]
+        for i in range(h * w):
+            base = F(rng.randint(4, 60), 4)
+            k = 0
+            for l in range(len(steps) + 1):
+                k += rng.choice([0, 0, 1, 1, 2, 3, -1, -2])
+                table[l][i] = base * (1 + k * pow2(-j))
+        idx = [i for i, c in enumerate(mj["bits"]) if c == "0"]
+        ratios, diffs = set(), set()
+        for l in range(1, len(steps) + 1):
+            for i in idx:
+                lo, hi = table[l - 1][i], table[l][i]
+                ratios.add(min(lo, hi) / max(lo, hi))
+                diffs.add(abs(lo - hi))
+        rs, ds = sorted(ratios), sorted(diffs)
+        how = rng.choice(["mid", "mid", "one", "tie_rel", "mid_rel", "mid_rel"])
+        fr, rel = F(float(F(1) - pow2(-(j - 4)))), None        # generous: every pair agrees unless `rel` says no
+        if how == "one":
+            fr = F(1)
+        elif how == "mid" and len(rs) >= 2:
+            gaps = [a for a in range(len(rs) - 1) if rs[a + 1] - rs[a] > pow2(-(j + 1))]
+            if gaps:
+                a = rng.choice(gaps)
+                fr = F(float((rs[a] + rs[a + 1]) / 2))
+        elif how == "tie_rel" and ds:
+            rel = rng.choice(ds)
+        elif ds:
+            a = rng.randrange(len(ds))
+            rel = F(float((ds[a] + (ds[a + 1] if a + 1 < len(ds) else 2 * ds[a])) / 2))
+        geom = rand_geom(rng, exact=True)
+        return {"tag": "table_near_equal", "kind": "iterate", "mask": mj, "geom": geom,
+                "table": [qlist(r) for r in table], "fr": q(fr), "rel": None if rel is None else q(rel),
+                "steps": steps, "path": rng.choice(["sampler", "decorator", "via_over_sampling"]), "exact": True,
+                **self._call_style(rng, geom)}
+
+    def _near_uniform_values_case(self, rng):
+        """sub-values c (1 + i 2^-24): nearly uniform, every per-pixel mean different"""
+        c = self._w_uniform(rng)
+        if not c or not c["values"]:
+            return None
+        base = F(rng.randint(8, 40), 8) * rng.choice([1, -1])
+        c["values"] = qlist([base * (1 + F(abs(int(F(v) * 8)) % 97, 1 << 24)) for v in c["values"]])
+        c["values_as"] = rng.choice(["f64", "f64", "list_float", "strided", "readonly"])
+        c["tag"] = "uniform_near_uniform_values"
+        return c
+
+    def _near_square_case(self, rng, quick):
+        """pixel scales that differ by 2^-22 (relative)"""
+        c = self._w_uniform(rng) if rng.random() < 0.5 else self._w_func(rng, quick, ["sampler", "decorator",
+                                                                                       "decorator_raw", "dataset_grids"])
+        if not c:
+            return None
+        g = [F(v) for v in c["geom"]]
+        g[1] = g[0] * (1 + rng.choice([1, -1]) * pow2(-rng.randint(20, 24)))
+        c["geom"], c["geom_as"] = qlist(g), "float"
+        c["tag"] = f"{c['kind']}_near_square"
+        return c
+
+    def _near_const_case(self, rng, quick):
+        """c + 2^-20 * quadratic: nearly constant, the per-pixel means are not the values at the pixel centres"""
+        c = self._w_func(rng, quick, ["sampler", "decorator", "decorator_raw", "oversampled_grid", "dataset_grids"])
+        if not c:
+            return None
+        d = lambda: gen.dyadic(rng, -3, 3, 2)
+        mj, g = c["mask"], geom_of(c)
+        cy, cx = pixel_centre(mj["h"], mj["w"], g, mj["h"] // 2, mj["w"] // 2)
+        quad = subst(poly([(d() or F(1), 2, 0), (d(), 1, 1), (d() or F(-1), 0, 2), (d(), 1, 0)]),
+                     ["sub", ["y"], C(cy)], ["sub", ["x"], C(cx)])
+        c["f"] = add(C(F(rng.randint(4, 24), 4)), mul(C(pow2(-rng.choice([20, 22, 22, 24]))), quad))
+        c.pop("ret_int", None)
+        c["tag"] = "func_near_const"
+        return c
+
+    def _decade_case(self, rng, quick):
+        r = rng.random()
+        near = None
+        if r < 0.16:
+            b, near = self._near_zero0_case(rng), "zero0"
+        elif r < 0.32:
+            b, near = self._near_equal_case(rng), "equal"
+        elif r < 0.38:
+            b, near = self._near_uniform_values_case(rng), "univals"
+        elif r < 0.44:
+            b, near = self._near_square_case(rng, quick), "square"
+        elif r < 0.50:
+            b, near = self._near_const_case(rng, quick), "const"
+        elif r < 0.78:
+            b = self._w_iter(rng, quick, path=rng.choice(["sampler", "via_over_sampling", "decorator"]))
+        elif r < 0.92:
+            b = self._w_func(rng, quick, self.H_FUNC_PATHS)
+        else:
+            b = self._w_uniform(rng)
+        if not b:
+            return None
+        if b["kind"] == "iterate":
+            try:
+                if self.known_finding(b, None) is not None or self._analysis(b)["early_uncertain"]:
+                    return None
+            except Exception:
+                return None
+        return self._decade_wrap(rng, b, near=near)
+
+    # ---- ownership histories ------------------------------------------------------------------------------------
+    @staticmethod
+    def _arrays_of(x, depth=0):
+        """the numpy buffers behind an object handed in / out: itself, the `_array` of the library's structures, and
+        one / two levels of attributes that are structures of the library"""
+        if isinstance(x, np.ndarray):
+            yield x
+            return
+        a = getattr(x, "_array", None)
+        if isinstance(a, np.ndarray):
+            yield a
+        if isinstance(x, (list, tuple)):
+            if depth < 1:
+                for v in x:
+                    if not isinstance(v, (int, float, str, bool)):
+                        yield from C09._arrays_of(v, depth + 1)
+            return
+        if depth < 2 and hasattr(x, "__dict__"):
+            for v in list(vars(x).values()):
+                if isinstance(v, np.ndarray) or hasattr(v, "_array") \
+                        or type(v).__module__.startswith("autoarray.operators") \
+                        or type(v).__module__.startswith("autoarray.structures") \
+                        or type(v).__module__.startswith("autoarray.mask"):
+                    yield from C09._arrays_of(v, depth + 1)
+
+    def _scribble(self, cap, mode):
+        seen = set()
+        for x in cap or []:
+            try:
+                arrs = list(self._arrays_of(x))
+            except Exception:
+                continue
+            for a in arrs:
+                while isinstance(a.base, np.ndarray):
+                    a = a.base                   # the whole buffer that owns the data
+                if id(a) in seen or not a.flags.writeable or a.size == 0:
+                    continue
+                seen.add(id(a))
+                try:
+                    if a.dtype == bool:
+                        a[...] = ~a
+                    elif np.issubdtype(a.dtype, np.integer):
+                        a[...] = a + 1
+                    elif np.issubdtype(a.dtype, np.floating):
+                        a[...] = np.nan if mode == "nan" else (0.0 if mode == "zero" else a + 1.0)
+                except Exception:
+                    pass
+
+    def _run_own(self, case):
+        import copy as _copy
+
+        outs = []
+        for r in range(int(case.get("rounds", 3))):
+            c = _copy.deepcopy(self._pub(case["base"]))
+            self._cap, self._cb_edit = [], case.get("cb_edit")
+            try:
+                try:
+                    obs = self.run_impl(c)
+                except Skip:
+                    raise
+                except Exception as e:
+                    obs = {"err": type(e).__name__, "msg": str(e)[:200]}
+            finally:
+                cap, self._cap, self._cb_edit = self._cap, None, None
+            outs.append(obs)
+            self._scribble(cap, case.get("scribble", "nan"))
+        return {"rounds": outs}
+
+    def _own_case(self, rng, quick):
+        r = rng.random()
+        if r < 0.30:
+            b = self._w_uniform(rng, routes=("direct", "over_sampling", "grid", "dataset_grids", "util"))
+        elif r < 0.65:
+            b = self._w_func(rng, quick, self.H_FUNC_PATHS)
+        else:
+            b = self._w_iter(rng, quick, path=rng.choice(["sampler", "via_over_sampling", "decorator"]))
+        if not b:
+            return None
+        if rng.random() < 0.2:
+            b = self._decade_wrap(rng, b)
+        inner_kind = b["base"]["kind"] if b["kind"] == "decade" else b["kind"]
+        return {"tag": f"own_{inner_kind}", "kind": "own", "base": self._pub(b), "rounds": 3,
+                "scribble": rng.choice(["nan", "nan", "plus1", "zero"]),
+                "cb_edit": None if inner_kind == "uniform" else rng.choice([None, "nan", "nan", "shift"])}
+
+    # ---- container / layout variants (R5-C) ----------------------------------------------------------------------
+    MASK_AS = ["fortran", "tview", "strided", "readonly", "list", "int01", "inverted", "from_mask2d", "from_mask2d",
+               "from_mask2d_same"]
+    PS_AS = ["list", "np64", "nparr", "scalar"]
+    ORIGIN_AS = ["list", "np64", "nparr", "omit"]
+    SUB_AS = ["i32", "i16", "u8", "native", "from_array2d", "strided", "readonly", "reversed"]
+    VALUES_AS = ["strided", "reversed", "readonly", "i32", "i16", "f32", "tuple_int", "list_float"]
+    # (a Python list / tuple is not a legal return value: `to_array` and `Array2D` need an ndarray-like; a natively
+    #  stored Grid2D is not a legal argument of the (N, 2)-shaped mock functions)
+    RET_AS = ["strided", "reversed", "readonly", "irregular"]
+    GRID_AS = ["fortran", "tview", "strided", "readonly", "native", "tuple_rows", "reversed"]
+
+    def _layout_case(self, rng, quick):
+        r = rng.random()
+        if r < 0.30:
+            c = self._w_uniform(rng, routes=("direct", "over_sampling", "grid", "dataset_grids"))
+        elif r < 0.70:
+            c = self._w_func(rng, quick, self.H_FUNC_PATHS + ["custom_grid", "custom_grid"])
+        else:
+            c = self._w_iter(rng, quick, path=rng.choice(["sampler", "via_over_sampling", "decorator"]))
+        if not c:
+            return None
+        kind = c["kind"]
+        n = c["mask"]["bits"].count("0")
+        g = geom_of(c)
+        opts = ["mask", "mask", "ps", "origin"]
+        if kind != "iterate" and isinstance(c.get("sub"), list) and n and c.get("path") != "none":
+            opts += ["sub", "sub"]
+        # (a natively stored sub-size map comes back from Array2D with a float dtype; the over-sampled grid and the
+        #  binning cast it to int, slim_for_sub_slim / sub_mask_native_for_sub_mask_slim raise TypeError for it -- an
+        #  exception, never a wrong value; that layout is therefore used for the function paths only)
+        sub_as = self.SUB_AS if kind == "func" else [x for x in self.SUB_AS if x != "native"]
+        if kind == "uniform" and c["values"]:
+            opts += ["values", "values"]
+        if kind != "uniform":
+            opts += ["ret", "ret"]
+        if kind == "func" and c["path"] == "custom_grid" and n:
+            opts += ["grid", "grid", "grid"]
+        picked = set(rng.sample(opts, min(len(opts), rng.choice([1, 2, 2, 3]))))
+        if rng.random() < 0.25:
+            # the example of DESIGN §14: a mask built from a mask, the explicitly passed origin being exactly (0, 0)
+            c["geom"] = [c["geom"][0], c["geom"][1], "0", "0"]
+            c["mask_as"] = "from_mask2d"
+            c["origin_as"] = rng.choice([None, "list", "np64"])
+            picked -= {"mask", "origin"}
+            if "grid" in c and kind == "func" and c["path"] != "custom_grid":
+                pass
+        for o in sorted(picked):
+            if o == "mask":
+                c["mask_as"] = rng.choice(self.MASK_AS)
+            elif o == "ps":
+                how = rng.choice(self.PS_AS)
+                if how == "scalar":
+                    c["geom"] = [c["geom"][0], c["geom"][0], c["geom"][2], c["geom"][3]]
+                c["ps_as"] = how
+            elif o == "origin":
+                how = rng.choice(self.ORIGIN_AS)
+                if how == "omit":
+                    c["geom"] = [c["geom"][0], c["geom"][1], "0", "0"]
+                c["origin_as"] = how
+            elif o == "sub":
+                c["sub_as"] = rng.choice(sub_as)
+            elif o == "values":
+                how = rng.choice(self.VALUES_AS)
+                vals = [F(v) for v in c["values"]]
+                if how in ("i32", "i16", "tuple_int") and any(v.denominator != 1 for v in vals):
+                    vals = [F(int(v * 8)) for v in vals]
+                c["values"], c["values_as"] = qlist(vals), how
+            elif o == "ret":
+                how = rng.choice(self.RET_AS + (["f32", "f32"] if "table" in c else []))
+                if how == "f32" and not all(F(v).denominator <= 1 << 10 and abs(F(v).numerator) < 1 << 20
+                                            for row in c["table"] for v in row):
+                    how = "strided"
+                if c.get("ret_int") and how == "f32":
+                    how = "i32"
+                c["ret_as"] = how
+            elif o == "grid":
+                how = rng.choice(self.GRID_AS)
+                c["grid"] = [[q(gen.dyadic(rng, -6, 6, 3)), q(gen.dyadic(rng, -6, 6, 3))] for _ in range(n)]
+                c["grid_as"] = how
+            elif o == "store":
+                c["grid_store"] = "native"
+        if "ps_as" in c or "origin_as" in c or c.get("mask_as") in ("from_mask2d", "from_mask2d_same"):
+            c["geom_as"] = "float"
+        if kind == "iterate":
+            c.pop("_analysis", None)
+            try:
+                if self.known_finding(c, None) is not None or self._analysis(c)["early_uncertain"]:
+                    return None
+            except Exception:
+                return None
+            c.pop("_analysis", None)
+        c["tag"] = "lay_" + kind + "_" + "+".join(sorted(picked) or ["mask0"])
+        return self._pub(c)
+
+    # ---- configuration (R5-D) ------------------------------------------------------------------------------------
+    ADAPT_SSL = [[4, 2, 1], [3, 1], [2, 3, 1], [1, 2], [5, 1, 2], [8, 4, 2, 1], [2, 2]]
+    ADAPT_RF = [0.7, 1.3, 1.9, 2.45, 3.01, 4.2]
+
+    def _adaptive_conf(self, rng):
+        ssl = list(rng.choice(self.ADAPT_SSL))
+        rfl = sorted(rng.sample(self.ADAPT_RF, len(ssl) - 1))
+        return {"adaptive": {"ssl": ssl, "rfl": [q(F(float(x))) for x in rfl]}}
+
+    def _adaptive_case(self, rng, quick, path="none"):
+        """a decorated call on a Grid2D with over_sampling=None while the configuration prescribes a non-trivial
+        adaptive scheme for the profile class (path "none"), or an explicit over-sampling while it does (control)"""
+        for _ in range(60):
+            c = self._w_func(rng, quick, [path])
+            if not c:
+                continue
+            mj = c["mask"]
+            h, w = mj["h"], mj["w"]
+            n = mj["bits"].count("0")
+            if n == 0 or not rows_contiguous(mj):
+                continue
+            g = geom_of(c)
+            P = pixel_centre(h, w, g, rng.randrange(h), rng.randrange(w))
+            c["centre"] = [q(P[0] + g[0] * F(rng.randint(-5, 5), 16)), q(P[1] + g[1] * F(rng.randint(-5, 5), 16))]
+            c["conf"] = self._adaptive_conf(rng)
+            c["geom_as"] = "float"
+            c.pop("ret_int", None)
+            if path == "none":
+                c["sub"] = expand_sub(c, n)
+                if c["_amargin"] is None or c["_amargin"] <= F(1, 10 ** 7):
+                    continue
+                if sum(s * s for s in c["sub"]) > (900 if quick else 2500):
+                    continue
+            c["tag"] = f"conf_adaptive_{path}"
+            return self._pub(c)
+        return None
+
+    def _conf_case(self, rng, quick):
+        r = rng.random()
+        if r < 0.30:
+            return self._adaptive_case(rng, quick, "none")
+        if r < 0.42:
+            return self._adaptive_case(rng, quick, rng.choice(["decorator", "decorator_raw", "dataset_grids",
+                                                                "custom_grid", "sampler"]))
+        if r < 0.62:
+            # history on ONE Grid2D (over_sampling=None) and one profile object: the configuration is flipped between
+            # the calls; every call follows the values in force when it is made
+            a = self._adaptive_case(rng, quick, "none")
+            if not a:
+                return None
+            n = a["mask"]["bits"].count("0")
+            b = dict(a)
+            if rng.random() < 0.5:
+                b.pop("conf")                     # back to the pinned configuration (all ones)
+                b["sub"] = [1] * n
+            else:
+                for _ in range(20):
+                    b["conf"] = self._adaptive_conf(rng)
+                    b.pop("_amap", None)
+                    b["sub"] = expand_sub(b, n)
+                    if b["sub"] != a["sub"] and b["_amargin"] > F(1, 10 ** 7):
+                        break
+                else:
+                    return None
+            b = self._pub(b)
+            cases = rng.choice([[a, b], [b, a], [a, b, a], [b, a, b]])
+            if rng.random() < 0.5:
+                c2 = self._v_newf(rng, cases[-1])
+                if c2:
+                    cases[-1] = self._pub(c2)
+            return {"tag": "hist_conf_func", "kind": "history", "script": "conf", "cases": [self._pub(c) for c in cases],
+                    "opts": {"share": {"mask": True, "os": True, "holder": True, "obj": rng.random() < 0.5},
+                             "decoy": None, "steps": [{} for _ in cases]}}
+        # the same call made first while other configuration values are in force (not judged), then observed under
+        # the pinned configuration on the same objects
+        if r < 0.85:
+            k = rng.random()
+            c = self._w_uniform(rng, routes=("direct", "over_sampling", "grid", "dataset_grids")) if k < 0.4 else \
+                self._w_func(rng, quick, self.H_FUNC_PATHS) if k < 0.75 else \
+                self._w_iter(rng, quick, path=rng.choice(["sampler", "via_over_sampling", "decorator"]))
+            if not c:
+                return None
+            c["pre_conf"] = {"native_only": True}
+            c["tag"] = f"conf_pre_native_{c['kind']}"
+            return self._pub(c)
+        c = self._w_func(rng, quick, ["none"])
+        if not c or not rows_contiguous(c["mask"]):
+            return None
+        ad = self._adaptive_conf(rng)["adaptive"]
+        c["pre_conf"] = {"ssl": ad["ssl"], "rfl": [float(F(v)) for v in ad["rfl"]]}
+        c["tag"] = "conf_pre_adaptive_none"
+        return self._pub(c)
+
+    # ---- rarely combined options (R5-F) --------------------------------------------------------------------------
+    OPT_FR = [("omit", "9999/10000f", None), ("sigdefault", "9999/10000f", None), ("value", "1", "float"),
+              ("value", "1", "int"), ("value", "1/2", "float"), ("value", None, None)]
+    OPT_REL = [("omit", None, None), ("sigdefault", None, None), ("value", "0", "float"), ("value", "0", "int"),
+               ("value", "1/8", "float"), ("value", "1000", "float"), ("value", "1", "int")]
+    OPT_STEPS = [("omit", [2, 4, 8, 16], "list"), ("value", [2, 4, 8, 16], "list"), ("value", [2, 4], "tuple"),
+                 ("value", [1], "list"), ("value", [2], "list"), ("value", [1, 1], "list"), ("value", [4, 2], "tuple")]
+
+    def _option_table(self, rng, mj, nl):
+        """per pixel a level from which the values are constant (agreement for every threshold, also an absolute
+        tolerance of exactly 0), multiples of 1/8 before (differences of exactly 1/8 are exact ties of that option)"""
+        h, w = mj["h"], mj["w"]
+        table = [[None] * (h * w) for _ in range(nl)]
+        for i in range(h * w):
+            stop = rng.randint(1, nl)
+            v = F(rng.randint(8, 64), 8)
+            for l in range(nl):
+                if l < stop:
+                    v = v + F(rng.choice([-8, -4, -1, 1, 1, 2, 8, 16]), 8)
+                    if v <= 0:
+                        v = F(rng.randint(1, 8), 8)
+                table[l][i] = v
+        return table
+
+    def _option_cases(self, rng, quick):
+        """every pair of values of two constructor options of the iterate scheme (the third one and the entry point
+        random), on explicit exact tables"""
+        import inspect
+
+        aa = load_autoarray()
+        known = {"fractional_accuracy", "relative_accuracy", "sub_steps"}
+        for cls in (aa.OverSamplingIterate, aa.OverSamplerIterate):
+            names = [p for p in inspect.signature(cls.__init__).parameters if p not in ("self", "mask")]
+            if set(names) != known:
+                # the constructor gained / lost an option: nothing is crossed blindly, the evidence shows the tag
+                yield {"tag": f"opt_signature_changed_{cls.__name__}", "kind": "uniform", "mask": mask_json([[False]]),
+                       "geom": ["1", "1", "0", "0"], "sub": 1, "values": ["1"], "route": "direct"}
+        combos = []
+        for a in self.OPT_FR:
+            for b in self.OPT_REL:
+                combos.append((a, b, None))
+        for a in self.OPT_FR:
+            for c in self.OPT_STEPS:
+                combos.append((a, None, c))
+        for b in self.OPT_REL:
+            for c in self.OPT_STEPS:
+                combos.append((None, b, c))
+        rng.shuffle(combos)
+        for a, b, c in combos[:(48 if quick else len(combos))]:
+            a = a or rng.choice(self.OPT_FR)
+            b = b or rng.choice(self.OPT_REL)
+            c = c or rng.choice(self.OPT_STEPS)
+            path = rng.choice(["sampler", "via_over_sampling", "decorator"])
+            if c[0] == "omit" and path == "sampler":
+                path = rng.choice(["via_over_sampling", "decorator"])   # only OverSamplingIterate defaults the schedule
+            m, _k = rand_mask(rng, 3, 3, max_unmasked=6)
+            mj = mask_json(m)
+            steps = list(c[1])
+            table = self._option_table(rng, mj, len(steps) + 1)
+            geom = rand_geom(rng, exact=True)
+            fr = None if a[1] is None else (F(0.9999) if a[1].endswith("f") else F(a[1]))
+            yield {"tag": f"opt_{a[0]}_{b[0]}_{c[0]}", "kind": "iterate", "mask": mj, "geom": geom,
+                   "table": [qlist(r) for r in table], "fr": None if fr is None else q(fr), "rel": b[1],
+                   "steps": steps, "path": path, "exact": all(is_pow2(s) for s in steps),
+                   "kw_style": "explicit", "steps_as": c[2], "num_as": a[2] or b[2] or "float",
+                   "geom_as": "float", "opt": {"fr": a[0], "rel": b[0], "steps": c[0]}}
+
+    def _dataset_option_case(self, rng, quick):
+        """GridsDataset / OverSamplingDataset: the sibling options (non_uniform, pixelization, psf) and the order in
+        which the sibling grids are read must not matter for `.uniform`"""
+        c = self._w_uniform(rng, routes=("dataset_grids",)) if rng.random() < 0.4 else \
+            self._w_func(rng, quick, ["dataset_grids"])
+        if not c:
+            return None
+        touch = rng.sample(["pixelization", "non_uniform", "blurring", "over_sampler_pixelization",
+                            "border_relocator"], rng.randint(0, 3))
+        c["ds_opts"] = {"non_uniform": rng.choice(["omit", None, 1, 3, "iterate"]),
+                        "pixelization": rng.choice(["omit", None, 1, 5]), "psf": rng.random() < 0.5, "touch": touch}
+        c["tag"] = f"opt_dataset_{c['kind']}"
+        return self._pub(c)
+
+    # ---- always-on sizes beyond 2^15 / 2^16 (R5-E) ----------------------------------------------------------------
+    def _always_large(self, rng, quick):
+        t = (1 << 16) + rng.randint(1, 4000)
+        pattern = rng.choice([[3, 5, 2, 7, 1, 3, 6], [5, 3], [7, 3, 3], [6, 1, 5], [3]])
+        spec, n = sub_spec_for_total(t, pattern)
+        yield self._large_case(rng, "func", "sub_pixels", 1 << 16, t, mask_recipe_for_unmasked(n, rng), spec,
+                               path=rng.choice(["sampler", "decorator", "decorator_raw", "oversampled_grid",
+                                                "dataset_grids"]))
+        t = (1 << 15) + rng.randint(1, 700)
+        yield self._large_case(rng, "uniform", "unmasked", 1 << 15, t, mask_recipe_for_unmasked(t, rng),
+                               {"pattern": [1, 1, 1, 1, 2, 1, 1, 1], "tail": []},
+                               route=rng.choice(["direct", "over_sampling", "grid", "dataset_grids"]))
+        t = (1 << 16) + rng.randint(1, 3000)
+        yield self._large_case(rng, "iterate", "frame", 1 << 16, t, mask_recipe_for_frame(t, rng), None,
+                               steps=rng.choice([[3, 5], [2, 4, 8], [3, 2, 4]]),
+                               path=rng.choice(["sampler", "decorator", "via_over_sampling"]))
+
+    N_R56 = {"quick": {"decade": 150, "own": 36, "layout": 130, "conf": 44, "ds": 16},
+             "thorough": {"decade": 1500, "own": 300, "layout": 1300, "conf": 400, "ds": 150}}
+
+    def _r56_stream(self, tier, rng):
+        quick = tier == "quick"
+        nn = self.N_R56["quick" if quick else "thorough"]
+        makers = [(self._decade_case, nn["decade"]), (self._own_case, nn["own"]), (self._layout_case, nn["layout"]),
+                  (self._conf_case, nn["conf"]), (self._dataset_option_case, nn["ds"])]
+        for make, count in makers:
+            for _ in range(count):
+                c = make(rng, quick)
+                if c:
+                    yield c
+                    if c["kind"] == "decade" and rng.random() < 0.2:
+                        # same-key-different-world neighbour (same mask pattern / sub-sizes / function, other geometry
+                        # or magnitude) for the runner's order-of-evaluation stream
+                        yield {**self._pub(c["base"]), "tag": "dec_base_" + c["base"]["kind"]}
+        yield from self._option_cases(rng, quick)
+        yield from self._always_large(rng, quick)
+
     # -------------------------------------------------------------------------------- bookkeeping
     def nontrivial(self, case, obs):
         if case["kind"] == "large":
             return True
         if case["kind"] == "history":
             return any(self.nontrivial(c, None) for c in case["cases"])
+        if case["kind"] in ("decade", "own"):
+            return self.nontrivial(case["base"], None)
         n = case["mask"]["bits"].count("0")
         if case["kind"] == "uniform":
             return any(s >= 2 for s in expand_sub(case, n))
@@ -2776,6 +3868,8 @@ class C09(PropertyCheck):
                 if self.known_finding(c, None):
                     return "D15"
             return None
+        if case["kind"] in ("decade", "own"):
+            return self.known_finding(self._inner(case), None)   # being exactly zero does not depend on the decade
         if case["kind"] != "iterate":
             return None
         a = self._analysis(case)
@@ -2808,6 +3902,21 @@ class C09(PropertyCheck):
             return
         if case["kind"] == "history":
             yield from self._shrink_history(case)
+            return
+        if case["kind"] in ("decade", "own"):
+            base = self._pub(case)
+            if case["kind"] == "decade":
+                # one transformation less, then a smaller base world under the same transformation
+                for key, zero in (("shift", None), ("kg", 0), ("kf", 0)):
+                    if case.get(key) and sum(1 for k in ("shift", "kg", "kf") if case.get(k)) > 1:
+                        yield {**base, key: zero}
+            else:
+                if case.get("cb_edit"):
+                    yield {**base, "cb_edit": None}
+                if case["base"].get("kind") == "decade":
+                    yield {**base, "base": self._pub(case["base"]["base"])}
+            for b2 in self._shrink(self._pub(case["base"])):
+                yield {**base, "base": self._pub(b2)}
             return
         mj = case["mask"]
         bits = mj["bits"]
@@ -2846,6 +3955,8 @@ class C09(PropertyCheck):
             case = {"kind": case["what"]}
         if case["kind"] == "history":
             return sorted({t for c in case["cases"] for t in self.theorems_for(c)})
+        if case["kind"] in ("decade", "own"):
+            return self.theorems_for(case["base"])
         if case["kind"] == "uniform":
             return ["C09.a_grid_eq_partition_centres", "C09.b_slimForSubSlim", "C09.c_binned_is_mean",
                     "C09.c_areas_sum"]
